@@ -24,6 +24,7 @@ EXPLANATION = (
     "fields) holds Cell/RefCell/Mutex/RwLock/Atomic/Once state; Configuration clones structurally. NOT decided: "
     "bit-equality of two runs (run-time), that different seeds give different streams (a property of ChaCha), purity "
     "of user evaluators.")
+EXPLANATION += " " + "(R3 revised) Configuration::run is followed down to the root component's phases over the typed store: the generator the phases see is the user's, untouched, or exactly one default generator if none was supplied; a sub-configuration run inside a scope whose ENCLOSING scope holds the user's generator sees that one and shadows nothing."
 ASSUMPTIONS = ["rand_chacha's ChaCha12Rng is a deterministic function of its seed", "rayon's par_iter_mut hands every element to exactly one task"]
 
 AMBIENT = ["rand::rngs::thread::thread_rng", "rand::random", "OsRng", "from_entropy", "getrandom::", "std::time::Instant::now", "std::time::SystemTime::now",
